@@ -1,18 +1,541 @@
-"""Format-term string domain (DESIGN 2.5) -- filled in with C05."""
-from .values import Unsupported
+"""Format-term string domain (DESIGN 2.5): strings whose *structure* is concrete (literal characters, in particular every
+separator) and whose numeric fields are symbolic.
+
+A normalised string is a list of segments: a single character, or a field `Dec(e, k)`: the decimal numeral of the
+non-negative integer term e written with exactly k digits (zero padded), k known; `Dec(e, None)`: the unpadded numeral of a
+non-negative integer whose number of digits is not known (only as the last segment). The number of digits of an unpadded
+numeral is established from the path's hypotheses by solver queries; a literal '0' directly before a field is absorbed
+into the field (so "W0" + numeral(week < 10) and "W" + numeral(week >= 10) are both "W" + 2-digit field).
+
+Regular expressions are the real patterns (the pattern string comes out of the real source, parsed by the standard
+library's own parser) matched by Brzozowski derivatives; a k-digit field is enumerated over its 10^k digit strings and the
+values are grouped by the derivative they lead to."""
+from __future__ import annotations
+
+import z3
+
+from . import smt
+from . import builtins_ as B
+from .strings import Dec
+from .values import Builtin, EnumMember, FmtStr, ListVal, Opaque, Sym, TupleVal, Unsupported
 
 
+class NFmt(FmtStr):
+    """normalised format string (parts = segments)"""
+    __slots__ = ()
+
+
+_DIGITS = "0123456789"
+
+
+def _digits_of(ctx, e):
+    """k such that the hypotheses give 10^(k-1) <= e < 10^k (k = 1: 0 <= e < 10); None if e >= 0 only; Unsupported otherwise"""
+    e = smt.simp(e)
+    if z3.is_int_value(e):
+        v = e.as_long()
+        if v < 0:
+            raise Unsupported("numeral of a negative number")
+        return len(str(v))
+    cache = ctx.ghost.setdefault("digits_cache", {})
+    key = (e.get_id(), len(ctx.hyps()))
+    if key in cache:
+        return cache[key]
+    hyps = ctx.hyps()
+    res = "unsupported"
+    for k in range(1, 6):
+        lo = 0 if k == 1 else 10 ** (k - 1)
+        v, _, _, _ = smt.prove(hyps, z3.And(e >= lo, e < 10 ** k), timeout_ms=2000)
+        if v == "proved":
+            res = k
+            break
+    if res == "unsupported":
+        v, _, _, _ = smt.prove(hyps, e >= 0, timeout_ms=2000)
+        if v == "proved":
+            res = None
+    cache[key] = res
+    if res == "unsupported":
+        raise Unsupported(f"numeral of {e}: sign / number of digits not determined by the path condition at {ctx.where}")
+    return res
+
+
+def norm(I, ctx, s):
+    """normalise a str / FmtStr into NFmt"""
+    if isinstance(s, NFmt):
+        return s
+    s = B.enum_str(s)
+    if isinstance(s, str):
+        return NFmt(list(s))
+    if not isinstance(s, FmtStr):
+        raise Unsupported(f"not a string: {s!r}")
+    segs = []
+    for p in s.parts:
+        p = B.enum_str(p) if not isinstance(p, (Dec, tuple)) else p
+        if isinstance(p, NFmt):
+            segs.extend(p.parts)
+        elif isinstance(p, FmtStr):
+            segs.extend(norm(I, ctx, p).parts)
+        elif isinstance(p, str):
+            segs.extend(p)
+        elif isinstance(p, bool):
+            segs.extend(str(p))
+        elif isinstance(p, int):
+            segs.extend(str(p))
+        elif isinstance(p, Dec) or (isinstance(p, tuple) and p and p[0] == "str" and isinstance(p[1], Sym) and p[1].kind == "int") or \
+                (isinstance(p, Sym) and p.kind == "int"):
+            if isinstance(p, Dec):
+                e, w = p.e, p.width
+            else:
+                e, w = (p[1].e if isinstance(p, tuple) else p.e), None
+            e = smt.simp(e)
+            if z3.is_int_value(e) and e.as_long() >= 0:
+                txt = str(e.as_long())
+                segs.extend(txt.rjust(w, "0") if w else txt)
+                continue
+            if w is not None:
+                v, _, _, _ = smt.prove(ctx.hyps(), z3.And(e >= 0, e < 10 ** w), timeout_ms=2000)
+                if v != "proved":
+                    raise Unsupported(f"padded numeral of {e}: not known to be within 0..{10 ** w - 1} at {ctx.where}")
+                k = w
+            else:
+                k = _digits_of(ctx, e)
+            segs.append(Dec(e, k))
+        elif isinstance(p, tuple) and p and p[0] == "str":
+            inner = p[1]
+            if isinstance(inner, (str, FmtStr)) or isinstance(B.enum_str(inner), str):
+                segs.extend(norm(I, ctx, B.enum_str(inner)).parts)
+            else:
+                raise Unsupported(f"text of {inner!r} inside a string at {ctx.where}")
+        else:
+            raise Unsupported(f"string part {p!r} at {ctx.where}")
+    # absorb literal zeros standing directly before a field of known width
+    out = []
+    for sg in segs:
+        if isinstance(sg, Dec) and sg.width is not None:
+            z = 0
+            while out and out[-1] == "0":
+                out.pop()
+                z += 1
+            out.append(Dec(sg.e, sg.width + z) if z else sg)
+        else:
+            out.append(sg)
+    return NFmt(out)
+
+
+def concrete(n):
+    return "".join(n.parts) if all(isinstance(x, str) for x in n.parts) else None
+
+
+def _back(n):
+    c = concrete(n)
+    return c if c is not None else n
+
+
+# ---------------------------------------------------------------------------------------------------------------
+# equality, length, int()
+# ---------------------------------------------------------------------------------------------------------------
 def fmt_eq(I, ctx, a, b):
-    raise Unsupported(f"format-term equality not available: {a!r} == {b!r} at {ctx.where}")
+    try:
+        x, y = norm(I, ctx, a).parts, norm(I, ctx, b).parts
+    except Unsupported:
+        if isinstance(b, (str, FmtStr)) and isinstance(a, (str, FmtStr)):
+            raise
+        return False
+    conds = []
+    i = j = 0
+    while i < len(x) and j < len(y):
+        p, q = x[i], y[j]
+        if isinstance(p, str) and isinstance(q, str):
+            if p != q:
+                return False
+            i, j = i + 1, j + 1
+            continue
+        if isinstance(q, Dec) and not isinstance(p, Dec):
+            x, y, i, j, p, q = y, x, j, i, q, p
+        # p is a field
+        if p.width is None and isinstance(q, Dec) and q.width is not None and not (i == len(x) - 1 and j == len(y) - 1):
+            # an unpadded numeral of unknown length against a k-digit field: equal texts need equal values, and then the
+            # unpadded numeral has k digits exactly when the value has no leading zero in k digits
+            conds.append(p.e == q.e)
+            if q.width > 1:
+                conds.append(q.e >= 10 ** (q.width - 1))
+            i, j = i + 1, j + 1
+            continue
+        if p.width is None:
+            rest = y[j:]
+            if len(rest) == 1 and isinstance(rest[0], Dec):
+                r = rest[0]
+                conds.append(p.e == r.e)
+                if r.width is not None and r.width > 1:
+                    conds.append(r.e >= 10 ** (r.width - 1))      # an unpadded numeral has no leading zero
+                return _conj(conds)
+            if all(isinstance(c, str) for c in rest):
+                txt = "".join(rest)
+                if not txt or not all(c in _DIGITS for c in txt) or (len(txt) > 1 and txt[0] == "0"):
+                    return False
+                conds.append(p.e == int(txt))
+                return _conj(conds)
+            raise Unsupported("comparison of an unpadded numeral with a mixed rest")
+        k = p.width
+        if isinstance(q, Dec):
+            if q.width == k:
+                conds.append(p.e == q.e)
+                i, j = i + 1, j + 1
+                continue
+            if q.width is None:
+                conds.append(p.e == q.e)
+                if k > 1:
+                    conds.append(p.e >= 10 ** (k - 1))
+                i, j = i + 1, j + 1
+                continue
+            raise Unsupported(f"comparison of numerals of different widths at the same place: {x!r} / {y!r}")
+        chunk = y[j:j + k]
+        if len(chunk) < k or not all(isinstance(c, str) for c in chunk):
+            if len(chunk) < k and all(isinstance(c, str) for c in chunk):
+                return False
+            raise Unsupported("comparison of a numeral with a mixed span")
+        txt = "".join(chunk)
+        if not all(c in _DIGITS for c in txt):
+            return False
+        conds.append(p.e == int(txt))
+        i, j = i + 1, j + k
+    if i < len(x) or j < len(y):
+        return False
+    return _conj(conds)
+
+
+def _conj(conds):
+    if not conds:
+        return True
+    f = smt.simp(z3.And(*conds))
+    return True if z3.is_true(f) else False if z3.is_false(f) else f
 
 
 def fmt_len(I, ctx, s):
-    raise Unsupported("format-term len")
+    n = norm(I, ctx, s)
+    total = 0
+    for sg in n.parts:
+        if isinstance(sg, str):
+            total += 1
+        elif sg.width is None:
+            raise Unsupported("len() of a string ending in a numeral of unknown length")
+        else:
+            total += sg.width
+    return total
 
 
 def parse_int(I, ctx, v):
+    n = norm(I, ctx, v)
+    c = concrete(n)
+    if c is not None:
+        try:
+            return int(c)
+        except ValueError:
+            raise I.raise_exc("ValueError")
+    if len(n.parts) == 1 and isinstance(n.parts[0], Dec):
+        return B.wrap(n.parts[0].e)
+    if any(isinstance(sg, str) and sg not in _DIGITS + " _+-" for sg in n.parts):
+        raise I.raise_exc("ValueError")
     raise Unsupported(f"int() of {v!r}")
 
 
+# ---------------------------------------------------------------------------------------------------------------
+# str methods
+# ---------------------------------------------------------------------------------------------------------------
+def _split(n, sep, maxsplit=-1, from_right=False):
+    if not isinstance(sep, str) or not sep or any(c in _DIGITS for c in sep):
+        raise Unsupported(f"split on {sep!r}")
+    segs = n.parts
+    if from_right:
+        raise Unsupported("rsplit of a format string")
+    out, cur, i, done = [], [], 0, 0
+    L = len(sep)
+    while i < len(segs):
+        window = segs[i:i + L]
+        if (maxsplit < 0 or done < maxsplit) and len(window) == L and all(isinstance(c, str) for c in window) and "".join(window) == sep:
+            out.append(NFmt(cur))
+            cur = []
+            i += L
+            done += 1
+        else:
+            cur.append(segs[i])
+            i += 1
+    out.append(NFmt(cur))
+    return ListVal([_back(x) for x in out])
+
+
 def str_method(I, ctx, s, name):
+    def B_(fn):
+        return Builtin("str." + name, fn)
+    if not isinstance(s, FmtStr):
+        return None
+    if name in ("split", "rsplit"):
+        return B_(lambda ctx2, sep=None, maxsplit=-1: _split(norm(I, ctx2, s), B.enum_str(sep), maxsplit, name == "rsplit"))
+    if name in ("lower", "upper"):
+        return B_(lambda ctx2: _back(NFmt([getattr(c, name)() if isinstance(c, str) else c for c in norm(I, ctx2, s).parts])))
+    if name == "__contains__":
+        def cont(ctx2, x):
+            x = B.enum_str(x)
+            if not isinstance(x, str) or any(c in _DIGITS for c in x):
+                raise Unsupported(f"{x!r} in a format string")
+            runs = "".join(c if isinstance(c, str) else "\x00" for c in norm(I, ctx2, s).parts)
+            return x in runs
+        return B_(cont)
+    if name == "__eq__":
+        return B_(lambda ctx2, x: B.eq_formula(I, ctx2, s, x))
+    if name == "__len__":
+        return B_(lambda ctx2: fmt_len(I, ctx2, s))
+    if name in ("startswith", "endswith"):
+        def sw(ctx2, p):
+            p = B.enum_str(p)
+            if not isinstance(p, str) or any(c in _DIGITS for c in p):
+                raise Unsupported(f"{name}({p!r}) on a format string")
+            segs = norm(I, ctx2, s).parts
+            part = segs[:len(p)] if name == "startswith" else segs[len(segs) - len(p):]
+            if len(part) < len(p):
+                return False
+            if any(isinstance(c, Dec) for c in part):
+                return False          # a digit where a non-digit is asked for
+            return "".join(part) == p
+        return B_(sw)
+    if name == "__hash__":
+        raise Unsupported("hash of a format string")
     return None
+
+
+# ---------------------------------------------------------------------------------------------------------------
+# regular expressions by derivatives
+# ---------------------------------------------------------------------------------------------------------------
+EMPTY, EPS = ("empty",), ("eps",)
+ALPHABET = frozenset(chr(c) for c in range(32, 127))
+
+
+def _cat(a, b):
+    if a == EMPTY or b == EMPTY:
+        return EMPTY
+    if a == EPS:
+        return b
+    if b == EPS:
+        return a
+    return ("cat", a, b)
+
+
+def _alt(a, b):
+    if a == EMPTY:
+        return b
+    if b == EMPTY:
+        return a
+    if a == b:
+        return a
+    items = set()
+    for x in (a, b):
+        if x[0] == "alt":
+            items |= set(x[1])
+        else:
+            items.add(x)
+    return ("alt", frozenset(items)) if len(items) > 1 else next(iter(items))
+
+
+def _star(a):
+    if a in (EMPTY, EPS):
+        return EPS
+    if a[0] == "star":
+        return a
+    return ("star", a)
+
+
+_NULL = {}
+
+
+def nullable(r):
+    if r in _NULL:
+        return _NULL[r]
+    t = r[0]
+    v = (t == "eps" or t == "star" or (t == "cat" and nullable(r[1]) and nullable(r[2])) or (t == "alt" and any(nullable(x) for x in r[1])))
+    _NULL[r] = v
+    return v
+
+
+_DERIV = {}
+
+
+def deriv(r, c):
+    key = (r, c)
+    if key in _DERIV:
+        return _DERIV[key]
+    t = r[0]
+    if t in ("empty", "eps"):
+        v = EMPTY
+    elif t == "set":
+        v = EPS if c in r[1] else EMPTY
+    elif t == "cat":
+        v = _cat(deriv(r[1], c), r[2])
+        if nullable(r[1]):
+            v = _alt(v, deriv(r[2], c))
+    elif t == "alt":
+        v = EMPTY
+        for x in r[1]:
+            v = _alt(v, deriv(x, c))
+    elif t == "star":
+        v = _cat(deriv(r[1], c), r)
+    else:
+        raise Unsupported(f"regex node {t}")
+    _DERIV[key] = v
+    return v
+
+
+def _convert(pattern):
+    """(regex, anchored_at_end) from the standard library's parse of the pattern"""
+    try:
+        import re._parser as sre_parse
+        import re._constants as C
+    except ImportError:       # python < 3.11
+        import sre_parse
+        import sre_constants as C
+
+    def charset(items):
+        s, neg = set(), False
+        for op, av in items:
+            if op == C.NEGATE:
+                neg = True
+            elif op == C.LITERAL:
+                s.add(chr(av))
+            elif op == C.RANGE:
+                s |= {chr(x) for x in range(av[0], av[1] + 1)}
+            elif op == C.CATEGORY and av == C.CATEGORY_DIGIT:
+                s |= set(_DIGITS)
+            elif op == C.CATEGORY and av == C.CATEGORY_WORD:
+                s |= {c for c in ALPHABET if c.isalnum() or c == "_"}
+            elif op == C.CATEGORY and av == C.CATEGORY_SPACE:
+                s |= {" "}
+            else:
+                raise Unsupported(f"regex class item {op} {av}")
+        return ("set", frozenset(ALPHABET - s if neg else s))
+
+    def conv(seq):
+        items = list(seq)
+        r = EPS
+        end = False
+        for idx, (op, av) in enumerate(items):
+            if op == C.AT:
+                if av == C.AT_BEGINNING and idx == 0:
+                    continue
+                if av == C.AT_END and idx == len(items) - 1:
+                    end = True
+                    continue
+                raise Unsupported(f"regex anchor {av} inside the pattern")
+            r = _cat(r, one(op, av))
+        return r, end
+
+    def one(op, av):
+        if op == C.LITERAL:
+            return ("set", frozenset([chr(av)]))
+        if op == C.NOT_LITERAL:
+            return ("set", frozenset(ALPHABET - {chr(av)}))
+        if op == C.ANY:
+            return ("set", ALPHABET)
+        if op == C.IN:
+            return charset(av)
+        if op == C.SUBPATTERN:
+            r, end = conv(av[3])
+            if end:
+                raise Unsupported("regex $ inside a group")
+            return r
+        if op == C.BRANCH:
+            r = EMPTY
+            for alt in av[1]:
+                x, end = conv(alt)
+                if end:
+                    raise Unsupported("regex $ inside an alternative")
+                r = _alt(r, x)
+            return r
+        if op in (C.MAX_REPEAT, C.MIN_REPEAT):
+            lo, hi, sub = av
+            x, end = conv(sub)
+            if end:
+                raise Unsupported("regex $ inside a repetition")
+            r = EPS
+            for _ in range(lo):
+                r = _cat(r, x)
+            if hi == C.MAXREPEAT:
+                return _cat(r, _star(x))
+            if hi - lo > 64:
+                raise Unsupported("regex repetition bound too large")
+            tail = EPS
+            for _ in range(hi - lo):
+                tail = _alt(EPS, _cat(x, tail))
+            return _cat(r, tail)
+        raise Unsupported(f"regex operator {op}")
+    return conv(sre_parse.parse(pattern))
+
+
+_CONVERTED = {}
+
+
+def regex_cond(I, ctx, pattern, s, kind):
+    """z3 Bool (or python bool): the string matches"""
+    if pattern not in _CONVERTED:
+        _CONVERTED[pattern] = _convert(pattern)
+    rx, end = _CONVERTED[pattern]
+    if kind == "search":
+        raise Unsupported("re.search on a format string")
+    if kind == "match" and not end:
+        raise Unsupported("re.match without $ on a format string (prefix match)")
+    ctx.assumed_ext.add("regular expressions over format strings: derivative matcher over the pattern as parsed by the standard library "
+                        "(differentially tested against re on every run); '$' as end of string (no trailing newline)")
+    states = {rx: z3.BoolVal(True)}
+    for sg in norm(I, ctx, s).parts:
+        new = {}
+        if isinstance(sg, str):
+            for r, cond in states.items():
+                d = deriv(r, sg)
+                if d != EMPTY:
+                    new[d] = z3.Or(new[d], cond) if d in new else cond
+        else:
+            if sg.width is None or sg.width > 4:
+                raise Unsupported("regex over a numeral of unknown or large width")
+            k = sg.width
+            for r, cond in states.items():
+                groups = {}
+                for v in range(10 ** k):
+                    d = r
+                    for ch in str(v).rjust(k, "0"):
+                        d = deriv(d, ch)
+                        if d == EMPTY:
+                            break
+                    if d != EMPTY:
+                        groups.setdefault(d, []).append(v)
+                for d, vals in groups.items():
+                    c2 = z3.And(cond, _in_ranges(sg.e, vals))
+                    new[d] = z3.Or(new[d], c2) if d in new else c2
+        states = new
+        if not states:
+            return False
+    acc = [cond for r, cond in states.items() if nullable(r)]
+    if not acc:
+        return False
+    f = smt.simp(z3.Or(*acc))
+    return True if z3.is_true(f) else False if z3.is_false(f) else f
+
+
+def _in_ranges(e, vals):
+    rs, lo, prev = [], None, None
+    for v in vals:
+        if lo is None:
+            lo = prev = v
+        elif v == prev + 1:
+            prev = v
+        else:
+            rs.append((lo, prev))
+            lo = prev = v
+    rs.append((lo, prev))
+    return z3.Or(*[z3.And(e >= a, e <= b) if a != b else e == a for a, b in rs])
+
+
+def regex_match(I, ctx, pattern, s, kind):
+    c = regex_cond(I, ctx, pattern, s, "match" if kind == "match" else kind)
+    m = Opaque(None, "re.Match", {"truth": lambda ctx2: True})
+    if c is True:
+        return m
+    if c is False:
+        return None
+    return B.OptVal(smt.simp(z3.Not(c)), m)
